@@ -2,6 +2,7 @@ import Jap.Core.Validate
 import Jap.Core.ValidatePos
 import Jap.Lemmas.Validate
 import Jap.Gen.LenientBrackets
+import Jap.Gen.MetaKeyFilter
 /-!
 # C06 — unknown keys are never silently ignored; required keys are enforced
 
@@ -17,7 +18,9 @@ FULL STATEMENTS (what the property asks) and where the code — hence the faithf
   FALSE in three ways, each a theorem below and an open finding:
   `C06_leafless_counterexample` (a foreign key holding a mapping without leaves),
   `C06_unselected_counterexample` (a key in the section of a non-selected subcommand),
-  `C06_dict_kwargs_counterexample` (a key below `dict_kwargs`).
+  `C06_dict_kwargs_counterexample` (a key below `dict_kwargs`);
+  and a fourth: `C06_meta_key_counterexample` (a key named `__path__` / `__default_config__` / `__orig__` with a plain value:
+  `is_meta_key` filters it out of the key list `check_values` iterates; `child` classifies it as data).
   Proved: `C06_no_unknown_partial` — every key path *that carries a leaf* is never `.undefinedKey`: it is a
   definition, data, or falls in the two classes `.unselected` / `.dictKwargs`.
 * "a mapping is expected at a group key": `C06_scalar_for_group_counterexample` (DESIGN section 7 row 8).
@@ -49,7 +52,10 @@ theorem C06_no_lenient :
     ∧ Jap.Gen.LenientBrackets.lenientOther = []
     ∧ Jap.Gen.LenientBrackets.validateSteps = ["check_values | ", "check_required | not skip_required and (not lenient_check.get())"]
     ∧ Jap.Gen.LenientBrackets.parseCommonValidate = ["not skip_validation => self.validate(cfg, skip_required=skip_required)"]
-    ∧ Jap.Gen.LenientBrackets.knownArgsGuard.take 2 = ["caller not in {'jsonargparse', 'argcomplete'}", "NotImplementedError"]
+    ∧ Jap.Gen.LenientBrackets.knownArgsGuard = ["caller not in {'jsonargparse', 'argcomplete'}", "NotImplementedError",
+        -- the frame that is inspected is `inspect.stack()[1]`: the IMMEDIATE caller of `parse_known_args` (index 2 would be the
+        -- caller's caller, which is the package itself whenever user code is called back by it)
+        "caller_mod = inspect.getmodule(inspect.stack()[1][0]); caller = None if caller_mod is None else caller_mod.__package__"]
     ∧ Jap.Gen.LenientBrackets.unrecognized = ["unk", "self.error", "Unrecognized arguments:"] := by
   decide
 
@@ -197,14 +203,20 @@ theorem C06_plus_key_not_consumed (ld : String → Val) (pre : Path) (cut : Nat)
     simp only [hsl] at hs
     cases hap : appendSlot fs k with
     | some bn => simp [hap] at hs
-    | none => simp [hl]
+    | none =>
+      have hmz : isMeta k = false := by
+        cases hh : isMeta k with
+        | false => rfl
+        | true => simp [hh] at hs
+      have hm : metaLeaf k v = false := by cases v <;> simp [metaLeaf, hmz]
+      simp [hl, hm]
 
 /-- a "+" key whose base is an argument of another type, or no argument at all, is foreign -/
-theorem C06_plus_key_foreign (fs : Fields) (k : String) (hs : slotOf fs k = .none)
+theorem C06_plus_key_foreign (fs : Fields) (k : String) (hs : slotOf fs k = .none) (hm : isMeta k = false)
     (hb : ∀ b n, plusBase k = some b → assoc b fs = some n → appendable n = false) :
     foreignAt ⟨false, .group false fs, .dict []⟩ k = true := by
   unfold foreignAt
-  simp only [hs]
+  simp only [hs, hm]
   cases hap : appendSlot fs k with
   | none => rfl
   | some bn =>
@@ -212,6 +224,36 @@ theorem C06_plus_key_foreign (fs : Fields) (k : String) (hs : slotOf fs k = .non
     obtain ⟨h1, h2, h3⟩ := C06_append_only_list fs k b n hap
     rw [hb b n h1 h2] at h3
     cases h3
+
+/-! ### keys spelled `__...__` (`is_meta_key`, the filter of `get_sorted_keys`)
+
+Only the three names in `meta_keys` are filtered out of the key list `check_values` iterates; a foreign key spelled
+`__comment__` or `__pth__` is a foreign key (`foreignAt`, hence `C06_names_key_partial`).  The three names themselves are
+invisible when written by the user: counterexample `C06_meta_key_counterexample` below. -/
+
+/-- the extractor tie: `meta_keys` is the model's set; `is_meta_key` tests MEMBERSHIP of the leaf name in it; it is the default
+    filter of `get_sorted_keys`, which is what `check_values` iterates; `is_subclass_spec` allows `__path__` as the fourth key -/
+theorem C06_meta_key_source :
+    Jap.Gen.MetaKeyFilter.metaKeys = ["__default_config__", "__orig__", "__path__"]
+    ∧ (∀ k, isMeta k = Jap.Gen.MetaKeyFilter.metaKeys.contains k)
+    ∧ Jap.Gen.MetaKeyFilter.isMetaKeyBody = ["leaf_key = split_key_leaf(key)[-1]", "return leaf_key in meta_keys"]
+    ∧ Jap.Gen.MetaKeyFilter.sortedKeysFilterDefault = "is_meta_key"
+    ∧ Jap.Gen.MetaKeyFilter.sortedKeysSelect = "[k for k in self.keys() if not key_filter(k)]"
+    ∧ Jap.Gen.MetaKeyFilter.checkValuesKeys = ["cfg.get_sorted_keys()"]
+    ∧ Jap.Gen.MetaKeyFilter.subclassSpecKeys = ["__path__", "class_path", "dict_kwargs", "init_args"] := by
+  refine ⟨by decide, ?_, by decide, by decide, by decide, by decide, by decide⟩
+  intro k
+  simp only [isMeta, metaKeys, Jap.Gen.MetaKeyFilter.metaKeys, List.contains_cons, List.contains_nil, Bool.or_false]
+  cases (k == "__path__") <;> cases (k == "__default_config__") <;> cases (k == "__orig__") <;> rfl
+
+/-- **C06_dunder_is_foreign.**  A key that is none of the three meta keys — however it is spelled — is filtered nowhere: at a
+    level that does not define it (and where it is no append key) it is a foreign key, so `C06_names_key_partial` applies -/
+theorem C06_dunder_is_foreign (fs : Fields) (kvs : KV) (k : String) (hs : slotOf fs k = .none) (ha : appendSlot fs k = none)
+    (h1 : k ≠ "__path__") (h2 : k ≠ "__default_config__") (h3 : k ≠ "__orig__") :
+    foreignAt ⟨false, .group false fs, .dict kvs⟩ k = true := by
+  have hm : isMeta k = false := by simp [isMeta, metaKeys, h1, h2, h3]
+  unfold foreignAt
+  simp [hs, ha, hm]
 
 /-! ### the full statements fail on the code: witnesses (open findings) -/
 
@@ -332,6 +374,26 @@ example : validate ld0 appSpec [("m", .dict [("class_path", .str "m.A"), ("init_
     = .error (.unknown [.key "m", .key "init_args", .key "x+"] 2) := rfl
 example : foreignAt (root appSpec []) "n+" = true ∧ foreignAt (root appSpec []) "lii+" = true
     ∧ foreignAt (root appSpec []) "li+" = false ∧ foreignAt (root appSpec []) "ls+" = false := ⟨rfl, rfl, rfl, rfl⟩
+
+/-- **Counterexample (meta keys; open finding C06-meta-key-foreign).**  `__path__`, `__default_config__`, `__orig__` written
+    by the user with a plain value are accepted where nothing defines them: at the top level, in a group, in `init_args` of a
+    class, in the selected section, and `__path__` also next to `class_path`; the same positions reject `__comment__` / `__pth__`. -/
+theorem C06_meta_key_counterexample :
+    validate ld0 appSpec [("__path__", .str "v")] = .ok ()
+    ∧ validate ld0 appSpec [("d", .dict [("__orig__", .int 1)])] = .ok ()
+    ∧ validate ld0 appSpec [("m", .dict [("class_path", .str "m.A"), ("init_args", .dict [("__default_config__", .int 1)])])] = .ok ()
+    ∧ validate ld0 appSpec [("m", .dict [("class_path", .str "m.A"), ("__path__", .int 1)])] = .ok ()
+    ∧ validate ld0 appSpec [("fit", .dict [("__path__", .int 1)])] = .ok ()
+    ∧ validate ld0 appSpec [("__comment__", .str "v")] = .error (.unknown [.key "__comment__"] 0)
+    ∧ validate ld0 appSpec [("d", .dict [("__pth__", .int 1)])] = .error (.unknown [.key "d", .key "__pth__"] 0)
+    ∧ validate ld0 appSpec [("m", .dict [("class_path", .str "m.A"), ("init_args", .dict [("__comment__", .int 1)])])]
+        = .error (.unknown [.key "m", .key "init_args", .key "__comment__"] 2)
+    ∧ validate ld0 appSpec [("m", .dict [("class_path", .str "m.A"), ("__orig__", .int 1)])] = .error (.unknown [.key "m", .key "__orig__"] 1)
+    ∧ validate ld0 appSpec [("fit", .dict [("__comment__", .int 1)])] = .error (.unknown [.key "fit", .key "__comment__"] 0)
+    ∧ validate ld0 appSpec [("__path__", .dict [("q", .int 1)])] = .error (.unknown [.key "__path__", .key "q"] 0) := by
+  refine ⟨rfl, rfl, rfl, rfl, rfl, rfl, rfl, rfl, rfl, rfl, rfl⟩
+example : foreignAt (root appSpec []) "__comment__" = true ∧ foreignAt (root appSpec []) "__pth__" = true
+    ∧ foreignAt (root appSpec []) "__path__" = false := ⟨rfl, rfl, rfl⟩
 
 /-- `C06_required` applies to the class parameter `x` (per-class parser at `m.init_args`) and to the section key `s1.k` -/
 example : reach (root bigSpec bigCfg) [.key "m", .key "init_args"]
